@@ -81,12 +81,15 @@ int main(int argc, char** argv) {
             for (auto& q : poss) if (PolyglotBook::getHashKey(q) == PolyglotBook::getHashKey(pos)) dup = true;
             if (dup) continue;
             int nm = 1 + rnd.nextInt(std::min(5, ml.size));
+            // polyglot weights are 16-bit: a third of the positions use the upper part of the range (the ratios inside one position, and
+            // with them the 400-probe argument, stay as they are)
+            const int scale = rnd.nextInt(3) == 0 ? 300 : (rnd.nextInt(4) == 0 ? 150 : 1);
             std::vector<std::pair<Move,int>> st;
             for (int k = 0; k < nm; k++) {
                 Move m = ml[rnd.nextInt(ml.size)];
                 // prefer castling moves when available (polyglot encodes them as king-takes-rook)
                 for (int j = 0; j < ml.size; j++) { int pc = pos.getPiece(ml[j].from()); if ((pc == Piece::WKING || pc == Piece::BKING) && std::abs(ml[j].to().asInt() - ml[j].from().asInt()) == 2 && rnd.nextInt(2)) m = ml[j]; }
-                int w = rnd.nextInt(5) == 0 ? 0 : 20 + rnd.nextInt(200);
+                int w = rnd.nextInt(5) == 0 ? 0 : std::min(65535, (20 + rnd.nextInt(200)) * scale);
                 st.push_back({m, w});
                 ents.push_back({PolyglotBook::getHashKey(pos), PolyglotBook::getPGMove(pos, m), (U16)w, (int)poss.size(), m});
             }
